@@ -91,6 +91,9 @@ pub struct St {
     /// thread is placed exactly there depends on an order of two independent operations, which a
     /// partial-order reduction does not enumerate (finding F13)
     nonrobust: bool,
+    /// (`Opts::freeze`) main is between `stop_exploring()` and `explore()`: no scheduling decision
+    /// taken now is explored, i.e. main keeps running as long as it can
+    frozen: bool,
     /// relaxed probe stores seen so far in the replay: (location, value, thread, own clock component)
     probes: Vec<(u8, u8, u8, u8)>,
     ck: Option<Box<(Clocks, Clocks)>>,
@@ -108,11 +111,15 @@ pub struct Opts {
     /// model loom's `yield_now`: the yielding thread skips the next scheduling decision if any other
     /// thread can run (default: yield is a no-op)
     pub yield_sem: bool,
+    /// model the exploration controls: 0 = ignore them, 1 = `stop_exploring` .. `explore` regions of
+    /// main are frozen (only main runs while it can), 2 = additionally frozen from the start
+    /// (`expect_explicit_explore`)
+    pub freeze: u8,
 }
 
 impl Opts {
     pub fn new() -> Opts {
-        Opts { notify_any: false, clocks: false, spurious: true, max_states: 400_000, yield_sem: false }
+        Opts { notify_any: false, clocks: false, spurious: true, max_states: 400_000, yield_sem: false, freeze: 0 }
     }
 }
 
@@ -247,6 +254,7 @@ impl<'a> Sc<'a> {
             yielded: None,
             arrived: if self.opts.yield_sem { 1 } else { 0xff },
             nonrobust: false,
+            frozen: self.opts.freeze == 2,
             probes: vec![],
             ck: if self.opts.clocks { Some(Box::new((mk(), mk()))) } else { None },
         }
@@ -433,7 +441,19 @@ impl<'a> Sc<'a> {
                 }
             }
             // (the guard's store goes to a location nothing reads: no effect on results)
-            Op::Fence { .. } | Op::Yield | Op::StopExploring | Op::Explore | Op::SkipBranch | Op::DropGuardStore { .. } => done!(),
+            Op::StopExploring => {
+                if self.opts.freeze > 0 && t == 0 {
+                    s.frozen = true;
+                }
+                done!()
+            }
+            Op::Explore => {
+                if t == 0 {
+                    s.frozen = false;
+                }
+                done!()
+            }
+            Op::Fence { .. } | Op::Yield | Op::SkipBranch | Op::DropGuardStore { .. } => done!(),
             Op::Await { a, v, .. } => {
                 if s.atom[a as usize] == v as i64 {
                     done!()
@@ -938,11 +958,32 @@ impl<'a> Sc<'a> {
         }
     }
 
+    /// (`Opts::freeze`) `spawn`, `stop_exploring` and `explore` are no scheduling points in loom: they
+    /// run together with the operation before them, other threads get a chance only before the
+    /// next real operation.
+    fn glue(&self, mut s: St, t: usize) -> St {
+        loop {
+            match self.prog.threads[t].get(s.pc[t] as usize) {
+                Some(Op::Spawn { .. }) | Some(Op::StopExploring) | Some(Op::Explore) => {
+                    let mut out: Vec<Step> = vec![];
+                    let mut dummy = (false, false);
+                    self.steps(&s, t, &mut out, &mut dummy);
+                    match out.pop() {
+                        Some(Step::Done(ns)) if out.is_empty() => s = ns,
+                        _ => return s,
+                    }
+                }
+                _ => return s,
+            }
+        }
+    }
+
     /// Explore everything.
     pub fn explore(&self) -> ScResult {
         let mut r = ScResult::default();
         let mut seen: HashSet<St> = HashSet::new();
-        let mut stack = vec![self.init()];
+        let init = if self.opts.freeze > 0 { self.glue(self.init(), 0) } else { self.init() };
+        let mut stack = vec![init];
         let mut steps: Vec<Step> = vec![];
         let mut races = (false, false);
         while let Some(st) = stack.pop() {
@@ -1000,9 +1041,19 @@ impl<'a> Sc<'a> {
                     }
                 }
             }
+            // inside a frozen region only main runs while it can
+            let main_only = st.frozen && {
+                steps.clear();
+                let mut dummy = (false, false);
+                self.steps(&st, 0, &mut steps, &mut dummy);
+                !steps.is_empty()
+            };
             for t in 0..self.n {
                 steps.clear();
                 self.steps(&st, t, &mut steps, &mut races);
+                if main_only && t != 0 {
+                    steps.clear();
+                }
                 if st.started[t] && !st.exited[t] {
                     live += 1;
                     if steps.is_empty() {
@@ -1040,6 +1091,9 @@ impl<'a> Sc<'a> {
                             stack.push(s)
                         }
                         Step::Done(mut s) => {
+                            if self.opts.freeze > 0 {
+                                s = self.glue(s, t);
+                            }
                             s.nonrobust |= absorbs_nonrobust;
                             s.yielded = if self.opts.yield_sem && is_yield { Some(t as u8) } else { None };
                             stack.push(s)
